@@ -6,7 +6,7 @@ CONSTANTS
   Stores = {"s1", "s2"}
   MaxLayers = 2
   MaxLen = 4
-  InitBases <- BasesFA
+  InitBases <- Bases1
   ReadAll = FALSE
   LogViews = FALSE
   Quiet = FALSE
